@@ -58,7 +58,7 @@ package routetab
 //@ spec func routesBounded(t *Table) bool = t.routes != nil && NeighborAlpha >= 1 && forall k common.Hash :: present(t.routes, k) ==> len(t.routes[k]) <= int(NeighborAlpha)
 
 //@ func existRoute
-//@   property C27
+//@   property C27 C37:safety
 //@   ensures result <==> (exists i :: 0 <= i && i < len(routes) && routes[i].PathKey == route.PathKey && routes[i].Neighbor == route.Neighbor)
 //@   assigns nothing
 //@   loop 1 invariant 0 - 1 <= rangeindex && rangeindex < len(routes)
@@ -66,7 +66,7 @@ package routetab
 
 //@ # the per-target step of SavePath
 //@ func (*Table).SavePath$1
-//@   property C27
+//@   property C27 C37:safety
 //@   requires t != nil && t.store != nil
 //@   iterinv bounded: routesBounded(t)
 //@   ensures change-is-persisted: t.routes[tkey(target)] != old(t.routes[tkey(target)]) ==> storeWrites > old(storeWrites)
@@ -74,14 +74,14 @@ package routetab
 //@   ensures other-targets-untouched: forall k common.Hash :: k != tkey(target) ==> (present(t.routes, k) <==> old(present(t.routes, k))) && t.routes[k] == old(t.routes[k])
 
 //@ func (*Table).SavePath
-//@   property C27
+//@   property C27 C37:safety
 //@   requires t != nil && t.store != nil && p != nil && routesBounded(t)
 //@   ensures bounded-after: routesBounded(t)
 //@   ensures short-paths-ignored: len(p.Items) < 2 ==> forall k common.Hash :: (present(t.routes, k) <==> old(present(t.routes, k))) && t.routes[k] == old(t.routes[k])
 
 //@ # the per-target step of Delete: no route of the target refers to the deleted path afterwards
 //@ func (*Table).Delete$1
-//@   property C27
+//@   property C27 C37:safety
 //@   requires t != nil && t.store != nil
 //@   iterinv bounded: routesBounded(t)
 //@   ensures change-is-persisted: t.routes[tkey(target)] != old(t.routes[tkey(target)]) ==> storeWrites > old(storeWrites)
@@ -97,14 +97,14 @@ package routetab
 //@   assigns nothing
 
 //@ func (*Table).Delete
-//@   property C27
+//@   property C27 C37:safety
 //@   requires t != nil && t.store != nil && path != nil && routesBounded(t)
 //@   ensures bounded-after: routesBounded(t)
 
 //@ # next hops: distinct, none skipped, each the neighbour of a route of the target
 //@ spec func strOf(a boson.Address) string = pure("(github.com/gauss-project/aurorafs/pkg/boson.Address).String", a)
 //@ func (*Table).GetNextHop
-//@   property C27
+//@   property C27 C37:safety
 //@   requires t != nil && routesBounded(t)
 //@   ensures none-skipped: forall i :: 0 <= i && i < len(next) ==> !(exists j :: 0 <= j && j < len(skips) && skips[j] == next[i])
 //@   ensures each-is-a-route-neighbour: forall i :: 0 <= i && i < len(next) ==> (exists r :: 0 <= r && r < len(t.routes[tkey(target)]) && t.routes[tkey(target)][r].Neighbor == next[i])
@@ -120,7 +120,7 @@ package routetab
 //@   loop 2 assigns region(next)
 
 //@ func (*Table).Get
-//@   property C27
+//@   property C27 C37:safety
 //@   requires t != nil && routesBounded(t)
 //@   ensures at-most-alpha-paths: result1 == nil ==> 1 <= len(result0) && len(result0) <= int(NeighborAlpha)
 //@   ensures unknown-target: !present(t.routes, tkey(target)) ==> result1 != nil
@@ -138,10 +138,190 @@ package routetab
 //@   assigns nothing
 
 //@ func (*Service).saveUnderlay
-//@   property C34
+//@   property C34 C37:safety
 //@   requires s != nil && s.addressbook != nil && s.logger != nil
 //@   requires forall i :: 0 <= i && i < len(uList) ==> uList[i] != nil
 //@   callassert aurora.ParseAddress checked-with-the-message-fields-and-this-network: $networkID == s.networkID && $underlay == v.Underlay && $overlay == v.Dest && $signature == v.Signature
 //@   callassert Interface.Put only-records-that-parsed: addr != nil && err == nil && $overlay == addr.Overlay
 //@   loop 1 invariant s != nil && s.addressbook != nil && s.logger != nil && 0 - 1 <= rangeindex && rangeindex < len(uList)
 //@   loop 1 invariant forall i :: 0 <= i && i < len(uList) ==> uList[i] != nil
+
+//@ # ---- C37: no message from a remote peer makes the routing protocol panic ----------------------
+//@ extern func (github.com/gauss-project/aurorafs/pkg/p2p/protobuf.Reader).ReadMsgWithContext
+//@   assigns target(msg)
+//@ extern func (github.com/gauss-project/aurorafs/pkg/p2p/protobuf.Writer).WriteMsgWithContext
+//@   assigns nothing
+//@ extern func github.com/gauss-project/aurorafs/pkg/p2p/protobuf.NewWriterAndReader
+//@   assigns nothing
+//@ extern func github.com/gauss-project/aurorafs/pkg/p2p/protobuf.NewReader
+//@   assigns nothing
+//@ extern func github.com/gauss-project/aurorafs/pkg/p2p/protobuf.NewWriter
+//@   assigns nothing
+//@ extern func (github.com/gauss-project/aurorafs/pkg/p2p.Stream).Reset
+//@   assigns nothing
+//@ extern func (github.com/gauss-project/aurorafs/pkg/p2p.Stream).FullClose
+//@   assigns nothing
+//@ extern func (github.com/gauss-project/aurorafs/pkg/p2p.Stream).Close
+//@   assigns nothing
+//@ extern func (github.com/gauss-project/aurorafs/pkg/p2p.Streamer).NewStream
+//@   ensures result1 == nil ==> result0 != nil
+//@   assigns nothing
+//@ extern func (github.com/gauss-project/aurorafs/pkg/p2p.Streamer).NewRelayStream
+//@   ensures result1 == nil ==> result0 != nil
+//@   assigns nothing
+//@ extern func (github.com/gauss-project/aurorafs/pkg/addressbook.Interface).Get
+//@   ensures err == nil ==> addr != nil
+//@   ensures addr != nil ==> addr.Underlay != nil
+//@   assigns nothing
+//@ # the topology driver, seen from the route service
+//@ extern func (*github.com/gauss-project/aurorafs/pkg/topology/kademlia.Kad).NeighborhoodDepth
+//@   assigns nothing
+//@ extern func (*github.com/gauss-project/aurorafs/pkg/topology/kademlia.Kad).ConnectedPeers
+//@   ensures result != nil
+//@   assigns nothing
+//@ extern func (*github.com/gauss-project/aurorafs/pkg/topology/pslice.PSlice).BinPeers
+//@   assigns nothing
+//@ extern func (*github.com/gauss-project/aurorafs/pkg/topology/pslice.PSlice).Exists
+//@   assigns nothing
+//@ extern func (*github.com/gauss-project/aurorafs/pkg/topology/kademlia.Kad).EachNeighbor
+//@   iterates arg1
+//@   assigns nothing
+//@ extern func (*github.com/gauss-project/aurorafs/pkg/topology/kademlia.Kad).SnapshotAddr
+//@   assigns nothing
+//@ # (randomSubset slices addrs[:count] when count < len(addrs))
+//@ extern func (*github.com/gauss-project/aurorafs/pkg/topology/kademlia.Kad).RandomSubset
+//@   requires count >= 0
+//@   ensures result1 == nil ==> len(result0) <= len(array)
+//@   assigns nothing
+//@ extern func github.com/gauss-project/aurorafs/pkg/boson.Proximity
+//@   assigns nothing
+//@ extern func github.com/gauss-project/aurorafs/pkg/boson.NewAddress
+//@   assigns nothing
+//@ extern func github.com/gauss-project/aurorafs/pkg/bls.Sign
+//@   assigns nothing
+//@ extern func github.com/gogf/gf/v2/util/gconv.Bytes
+//@   assigns nothing
+//@ extern func github.com/gauss-project/aurorafs/pkg/aurora.NewModelFromBytes
+//@   assigns nothing
+//@ extern func (github.com/gauss-project/aurorafs/pkg/p2p.Service).CallHandlerWithConnChain
+//@   assigns nothing
+//@ # local parts that do not look at message content
+//@ extern func (*pendCallResTab).Get
+//@   requires pend != nil
+//@   ensures forall k :: 0 <= k && k < len(result) ==> result[k] != nil
+//@   assigns nothing
+//@ extern func (*pendCallResTab).Add
+//@   requires pend != nil
+//@   assigns nothing
+//@ extern func (*Service).GetRoute
+//@   ensures forall k :: 0 <= k && k < len(result0) ==> result0[k] != nil
+//@   assigns nothing
+//@ extern func (*Service).GetNextHopRandomOrFind
+//@   assigns nothing
+//@ extern func (*Table).convertPathsToPbPaths
+//@   assigns nothing
+
+//@ spec func routeOK(s *Service) bool = s != nil && s.stream != nil && s.logger != nil && s.kad != nil && s.addressbook != nil && s.p2ps != nil && s.pendingCalls != nil && s.routeTable != nil && s.routeTable.store != nil && routesBounded(s.routeTable) && s.metrics.TotalErrors != nil && s.metrics.FindRouteReqReceivedCount != nil && s.metrics.FindRouteRespReceivedCount != nil && s.metrics.FindRouteReqSentCount != nil && s.metrics.FindRouteRespSentCount != nil
+
+//@ func inPath
+//@   property C37
+//@   loop 1 invariant 0 - 1 <= rangeindex && rangeindex < len(path)
+//@   assigns nothing
+
+//@ func inPaths
+//@   property C37
+//@   loop 1 invariant 0 - 1 <= rangeindex1 && rangeindex1 < len(path)
+//@   loop 2 invariant 0 - 1 <= rangeindex1 && rangeindex1 < len(path) && 0 - 1 <= rangeindex2 && rangeindex2 < len(b)
+//@   assigns nothing
+
+//@ func skipPeers
+//@   property C37
+//@   loop 1 invariant 0 - 1 <= rangeindex && rangeindex < len(src)
+
+//@ # every path of a decoded message exists (the decoder never yields nil entries)
+//@ func (*Table).generatePaths
+//@   property C37
+//@   requires t != nil
+//@   requires forall k :: 0 <= k && k < len(paths) ==> paths[k] != nil
+//@   ensures forall k :: 0 <= k && k < len(out) ==> out[k] != nil
+//@   loop 1 invariant 0 - 1 <= rangeindex && rangeindex < len(paths) && (forall k :: 0 <= k && k < len(out) ==> out[k] != nil)
+//@   loop 1 invariant forall k :: 0 <= k && k < len(paths) ==> paths[k] != nil
+
+//@ func (*Table).SavePaths
+//@   property C37
+//@   requires t != nil && t.store != nil && routesBounded(t)
+//@   requires forall k :: 0 <= k && k < len(paths) ==> paths[k] != nil
+//@   ensures routesBounded(t)
+//@   loop 1 invariant 0 - 1 <= rangeindex && rangeindex < len(paths) && t != nil && t.store != nil && routesBounded(t)
+
+//@ func (*Service).convUnderlayList
+//@   property C37
+//@   requires routeOK(s)
+//@   requires forall k :: 0 <= k && k < len(old) ==> old[k] != nil
+//@   ensures forall k :: 0 <= k && k < len(out) ==> out[k] != nil
+//@   assigns nothing
+
+//@ func (*Service).sendDataToNode
+//@   property C37
+//@   requires routeOK(s)
+//@   assigns nothing
+
+//@ # the fan-out a request asks for is a number from the wire: any int32
+//@ func (*Service).getNeighbor
+//@   property C37
+//@   requires routeOK(s)
+//@   loop 1 invariant routeOK(s) && 0 - 1 <= rangeindex && rangeindex < len(now) && alpha >= 1
+
+//@ func (*Service).getNeighbor$1
+//@   property C37
+//@   assigns var now, region(now)
+
+//@ func (*Service).doRouteReq
+//@   property C37
+//@   requires routeOK(s)
+//@   requires req != nil ==> (forall k :: 0 <= k && k < len(req.Paths) ==> req.Paths[k] != nil) && (forall k :: 0 <= k && k < len(req.UList) ==> req.UList[k] != nil)
+//@   loop 1 invariant routeOK(s) && req != nil && 0 - 1 <= rangeindex && rangeindex < len(next)
+
+//@ func (*Service).doRouteResp
+//@   property C37
+//@   requires routeOK(s)
+//@   requires resp != nil ==> (forall k :: 0 <= k && k < len(resp.Paths) ==> resp.Paths[k] != nil) && (forall k :: 0 <= k && k < len(resp.UList) ==> resp.UList[k] != nil)
+
+//@ func (*Service).respForward
+//@   property C37
+//@   requires routeOK(s) && resp != nil
+//@   requires (forall k :: 0 <= k && k < len(resp.Paths) ==> resp.Paths[k] != nil) && (forall k :: 0 <= k && k < len(resp.UList) ==> resp.UList[k] != nil)
+//@   loop 1 invariant routeOK(s) && resp != nil && 0 - 1 <= rangeindex && rangeindex < len(res)
+//@   loop 1 invariant (forall k :: 0 <= k && k < len(resp.Paths) ==> resp.Paths[k] != nil) && (forall k :: 0 <= k && k < len(resp.UList) ==> resp.UList[k] != nil)
+
+//@ func (*Service).onRouteReq
+//@   property C37
+//@   requires routeOK(s) && stream != nil
+//@   loop 1 invariant routeOK(s) && 0 - 1 <= rangeindex1 && rangeindex1 < len(req.Paths)
+//@   loop 1 invariant (forall k :: 0 <= k && k < len(req.Paths) ==> req.Paths[k] != nil) && (forall k :: 0 <= k && k < len(req.UList) ==> req.UList[k] != nil)
+//@   loop 2 invariant routeOK(s) && 0 - 1 <= rangeindex2 && rangeindex2 < len(paths) && (forall k :: 0 <= k && k < len(paths) ==> paths[k] != nil)
+//@   loop 2 invariant (forall k :: 0 <= k && k < len(req.Paths) ==> req.Paths[k] != nil) && (forall k :: 0 <= k && k < len(req.UList) ==> req.UList[k] != nil)
+//@   loop 3 invariant routeOK(s) && 0 - 1 <= rangeindex3 && rangeindex3 < len(req.Paths)
+//@   loop 3 invariant (forall k :: 0 <= k && k < len(req.Paths) ==> req.Paths[k] != nil) && (forall k :: 0 <= k && k < len(req.UList) ==> req.UList[k] != nil)
+//@   loop 4 invariant routeOK(s) && 0 <= rangeindex3 && rangeindex3 < len(req.Paths) && 0 - 1 <= rangeindex4 && rangeindex4 < len(req.Paths[rangeindex3].Items)
+//@   loop 4 invariant (forall k :: 0 <= k && k < len(req.Paths) ==> req.Paths[k] != nil) && (forall k :: 0 <= k && k < len(req.UList) ==> req.UList[k] != nil)
+
+//@ func (*Service).onRouteResp
+//@   property C37
+//@   requires routeOK(s) && stream != nil
+//@   loop 1 invariant routeOK(s) && 0 - 1 <= rangeindex1 && rangeindex1 < len(resp.Paths)
+//@   loop 1 invariant (forall k :: 0 <= k && k < len(resp.Paths) ==> resp.Paths[k] != nil) && (forall k :: 0 <= k && k < len(resp.UList) ==> resp.UList[k] != nil) && (forall k :: 0 <= k && k < len(now) ==> now[k] != nil)
+//@   loop 2 invariant routeOK(s) && 0 - 1 <= rangeindex2 && rangeindex2 < len(resp.Paths)
+//@   loop 2 invariant (forall k :: 0 <= k && k < len(resp.Paths) ==> resp.Paths[k] != nil) && (forall k :: 0 <= k && k < len(resp.UList) ==> resp.UList[k] != nil)
+
+//@ func (*Service).onFindUnderlay
+//@   property C37
+//@   requires routeOK(s) && stream != nil
+
+//@ func (*Service).FindUnderlay
+//@   property C37
+//@   requires routeOK(s)
+
+//@ func (*Service).onRelayConnChain
+//@   property C37
+//@   requires routeOK(s) && stream != nil
